@@ -145,6 +145,23 @@ pub struct Built {
     pub auto: Auto,
     pub vals: Vec<u32>,
     pub explicit_vals: bool,
+    /// the automaton went through serialize/deserialize
+    pub restored: bool,
+}
+
+impl Built {
+    /// The same automaton after a serialisation round trip.
+    pub fn round_trip(&self) -> Built {
+        let bytes = self.auto.serialize();
+        let (a, _, _) = Auto::deserialize(self.cfg.variant, &bytes);
+        Built {
+            cfg: self.cfg,
+            auto: a,
+            vals: self.vals.clone(),
+            explicit_vals: self.explicit_vals,
+            restored: true,
+        }
+    }
 }
 
 /// Builds one automaton, turning an error or a panic into a violation of `prop`.
@@ -169,6 +186,7 @@ pub fn build_or_violate(
                 auto: a,
                 vals: v,
                 explicit_vals: vals.is_some(),
+                restored: false,
             })
         }
         Ok(Err(e)) => {
@@ -249,6 +267,9 @@ pub fn report_mismatch(
     let m = c.as_object_mut().unwrap();
     m.insert("haystack".into(), json!(hex(hay)));
     m.insert("method".into(), json!(method.name()));
+    if b.restored {
+        m.insert("restored".into(), json!(true));
+    }
     m.insert("expected".into(), ms_json(exp));
     m.insert("got".into(), ms_json(got));
     acc.violate(
@@ -261,7 +282,7 @@ pub fn report_mismatch(
             b.cfg.kind.name(),
             b.cfg.nfb,
             b.cfg.entry.name(),
-            pats.iter().map(|p| show(p)).collect::<Vec<_>>(),
+            show_pats(pats),
             show(hay),
             exp,
             got,
@@ -271,7 +292,18 @@ pub fn report_mismatch(
     );
 }
 
+pub fn show_pats(pats: &[Vec<u8>]) -> String {
+    let mut v: Vec<String> = pats.iter().take(8).map(|p| show(p)).collect();
+    if pats.len() > 8 {
+        v.push(format!("... {} patterns in all", pats.len()));
+    }
+    format!("[{}]", v.join(", "))
+}
+
 pub fn show(b: &[u8]) -> String {
+    if b.len() > 48 {
+        return format!("0x{}..({} bytes)", hex(&b[..24]), b.len());
+    }
     match std::str::from_utf8(b) {
         Ok(s) if s.chars().all(|c| !c.is_control()) => s.to_string(),
         _ => format!("0x{}", hex(b)),
@@ -437,10 +469,13 @@ pub fn replay(case: &Value) -> bool {
     let hay = util::unhex(case["haystack"].as_str().unwrap_or(""));
     let mut acc = Acc::new();
     let prop = case["property"].as_str().unwrap_or("C01").to_string();
-    let Some(b) = build_or_violate(&prop, "enum", cfg, &pats, vals.as_deref(), &mut acc) else {
+    let Some(mut b) = build_or_violate(&prop, "enum", cfg, &pats, vals.as_deref(), &mut acc) else {
         println!("replay: construction fails");
         return true;
     };
+    if case["restored"].as_bool() == Some(true) {
+        b = b.round_trip();
+    }
     let methods: Vec<Method> = match case["method"].as_str() {
         Some(m) if !m.is_empty() => vec![Method::parse(m)],
         _ => Method::for_kind(cfg.kind).to_vec(),
